@@ -160,24 +160,36 @@ func putLine(ep, method, body string, items []item, fault string, gate bool, cor
 		ep, method, body, itemsWord(items), fault, g, corder, probeSet)
 }
 
-// faultPositions enumerates every fault position that exists for this payload and endpoint.
-func faultPositions(ep string, items []item) []string {
-	fs := []string{"none"}
-	if ep == "configuration" {
-		fs = append(fs, "backup", "rread")
-	} else {
+// faultPositions enumerates every fault position that exists for this payload, tree and endpoint.
+func faultPositions(r *prng.R, ep string, t tree, items []item) []string {
+	fs := []string{"none", "backup", "rread", "haproxy:1", "haproxy:2"}
+	if ep == "apply_flows" {
 		fs = append(fs, "clean:g", "clean:um")
 	}
 	for _, it := range items {
 		fs = append(fs, "save:"+it.logical)
 	}
-	if ep == "configuration" {
-		for _, it := range items {
-			fs = append(fs, "rstore:"+it.logical)
-		}
-		fs = append(fs, "haproxy:2")
+	// a store failing inside Restore(): the files it writes back are the payload's changed files
+	// (and, for /apply_flows, everything the clean-up removed)
+	cand := map[string]bool{}
+	for _, it := range items {
+		cand[it.logical] = true
 	}
-	fs = append(fs, "haproxy:1")
+	if ep == "apply_flows" {
+		for l := range t {
+			if l != "dm" {
+				cand[l] = true
+			}
+		}
+	}
+	keys := make([]string, 0, len(cand))
+	for k := range cand {
+		keys = append(keys, k)
+	}
+	sort.Strings(keys)
+	for _, k := range keys {
+		fs = append(fs, "rstore:"+k+" rpos="+prng.Pick(r, []string{"first", "last"}))
+	}
 	return fs
 }
 
@@ -209,7 +221,7 @@ func gen(r *prng.R, f proto.Flags, emit func(proto.Case)) {
 				continue
 			}
 			corder := prng.Pick(rr, []string{"g,um", "um,g"})
-			for _, fault := range faultPositions(ep, items) {
+			for _, fault := range faultPositions(rr, ep, t, items) {
 				one(t, putLine(ep, "PUT", "items", items, fault, rr.Chance(50), corder))
 			}
 		}
@@ -226,7 +238,7 @@ func gen(r *prng.R, f proto.Flags, emit func(proto.Case)) {
 				"items", items, "none", rr.Bool(), "g,um"))
 		case 3:
 			items2 := genPayload(rr, t, rr.Intn(nShapes))
-			one(t, putLine("configuration", "PUT", "items", items, prng.Pick(rr, faultPositions("configuration", items)), rr.Bool(), "g,um"),
+			one(t, putLine("configuration", "PUT", "items", items, prng.Pick(rr, faultPositions(rr, "configuration", t, items)), rr.Bool(), "g,um"),
 				putLine(prng.Pick(rr, []string{"configuration", "apply_flows"}), "PUT", "items", items2, "none", rr.Bool(), "um,g"))
 		case 4:
 			one(t, "put ep=configuration m=PUT body=items items=g:g1,f/a.yaml:v1 fault=none gate=0 corder=g,um probes=a",
